@@ -127,6 +127,74 @@ def corpus_transport_force(ctx):
     return []
 
 
+def corpus_transport_exists(ctx):
+    """Transport destination groups, enumerated: 2-3 transport nodes, which of them is the fullest (the one a pull is handed
+    to), on which of them a file already sits at the request's path (never registered; right or wrong bytes) or is recorded
+    corrupt / suspect / healthy; the real daemon runs passes and tasks one by one.  Oracle (last sentence of the property):
+    a file that was at the destination path before a task and has other bytes after it had been recorded corrupt first."""
+    import itertools
+    import shutil
+    import world as worldmod
+    probs = []
+    with envmod.Env() as e:
+        for k, full, at, pre in itertools.product([2, 3], [0, 1, 2], [0, 1, 2], ["stray-bad", "stray-good", "M-bad", "X", "Y-bad"]):
+            if full >= k or at >= k:
+                continue
+            w = worldmod.World(e)
+            db = w.db
+            for m in (db.StorageTransferAction, db.ArchiveFileCopyRequest, db.ArchiveFileImportRequest, db.ArchiveFileCopy,
+                      db.ArchiveFile, db.ArchiveAcq, db.StorageNode, db.StorageGroup):
+                m.delete().execute()
+            shutil.rmtree(os.path.join(e.tmp, "roots"), ignore_errors=True)
+            gs, gt = w.group("gs"), w.group("gt", io_class="Transport")
+            src = w.node("src", gs, stype="F")
+            ts = [w.node(f"t{i}", gt, stype="T", avail_kib=(10 if i == full else 1000 + i) * 2 ** 10) for i in range(k)]
+            good = b"the registered content"
+            f = w.file(w.acq("acq"), "f.dat", good)
+            w.copy(f, src, has="Y")
+            bad = b"something else entirely"
+            if pre.startswith("stray"):
+                w.put_bytes(ts[at], f, bad if pre == "stray-bad" else good)
+            else:
+                w.copy(f, ts[at], has=pre[0], on_disk=good if pre == "X" and False else bad)
+            w.req(f, src, gt)
+            os.environ["PATH"] = os.path.join(wharness.FAKE, "none")
+            log = [f"{k} transport nodes, fullest t{full}; at the path on t{at}: {pre}"]
+            # the main loop measures free space itself: scripted per root
+            real_statvfs = os.statvfs
+            free = {n.root: (10 if i == full else 1000 + i) * 2 ** 20 for i, n in enumerate(ts)}
+
+            class SV:
+                def __init__(self, b):
+                    self.f_bavail, self.f_bsize = b, 1
+            os.statvfs = lambda path, _f=free: SV(_f[str(path)]) if str(path) in _f else real_statvfs(path)
+            try:
+                d = worldmod.Daemon(e, "h1")
+                for ps in range(4):
+                    d.iterate()
+                    for _ in range(12):
+                        before = {n.id: w.file_on(n, f) for n in ts}
+                        rows = {c.node_id: c.has_file for c in db.ArchiveFileCopy.select().where(db.ArchiveFileCopy.file == f.id)}
+                        r = d.run_task()
+                        if r is None:
+                            break
+                        log.append(f"pass {ps + 1}: {r[1]}")
+                        for n in ts:
+                            now = w.file_on(n, f)
+                            if before[n.id] is not None and now is not None and now != before[n.id] and rows.get(n.id) != "X":
+                                probs.append((f"task '{r[1]}' replaced the file at the destination path on transport node {n.name} "
+                                              f"({before[n.id]!r} -> {now!r}) although no check had recorded it corrupt (copy row before: "
+                                              f"{rows.get(n.id)})", list(log)))
+            finally:
+                os.statvfs = real_statvfs
+                os.environ["PATH"] = "/usr/local/bin:/usr/bin:/bin"
+            rq = db.ArchiveFileCopyRequest.get()
+            ctx.case(("transport-exists", k, full, at, pre), nontrivial=True,
+                     sample={"scenario": log, "request completed": bool(rq.completed)} if (k, full, at, pre) == (3, 1, 1, "stray-bad") else None)
+            ctx.count(f"transport-exists:{pre}:{'completed' if rq.completed else 'cancelled' if rq.cancelled else 'pending'}")
+    return probs
+
+
 def stage_grid(ctx, drv):
     """the property's quantifier as a grid instead of a sample: every source kind (local same class -> hard link, local other
     class -> rsync / internal copy, remote with and without route) x every transport / tool outcome the real code can be driven
@@ -258,6 +326,8 @@ def run(ctx):
     stage_group_queries(ctx, drv, rng, 150 if ctx.quick() else 4000)
     for p in corpus_transport_force(ctx):
         ctx.violation("transport-force-overwrites-unverified", p, {"kind": "corpus", "name": "transport forced pull"})
+    for p, lg in corpus_transport_exists(ctx):
+        ctx.violation("transport-exists:overwrite", p, {"kind": "corpus", "name": "transport group, file already at the path", "steps": lg})
     # all-or-nothing under DB faults at every statement of the pull task (shared machinery with C10)
     scen = [("pull", 0, "none", "ok"), ("pull", 1, "rsync-only", "ok"), ("pull", 1, "rsync-only", "partial"), ("search", 0, "none", "ok")]
     with envmod.Env() as e:
